@@ -349,6 +349,13 @@ impl IndexTable {
 		((base.0.as_u64(), base.1), (fast.0.as_u64(), fast.1))
 	}
 
+	/// Verification hook: `recover_key_prefix` of an index table with `index_bits` bits.
+	#[cfg(pdb_verif)]
+	pub fn verif_recover_key_prefix(index_bits: u8, chunk: u64, entry: u64) -> Key {
+		let table = IndexTable::create_new(std::path::Path::new(""), TableId::new(0, index_bits));
+		table.recover_key_prefix(chunk, Entry::from_u64(entry))
+	}
+
 	// Only returns 54 bits of the actual key.
 	pub fn recover_key_prefix(&self, chunk: u64, entry: Entry) -> Key {
 		// Restore first 54 bits of the key.
